@@ -307,7 +307,20 @@ def templates(ctx, rule):
     for cls, frag in (("GoogleDriveFile", "/d/%s"), ("GoogleDrivePublicLink", "/d/e/%s/pub")):
         c = gm.klass(cls)
         has = any(isinstance(n, ast.Constant) and isinstance(n.value, str) and frag in n.value for n in ast.walk(c))
-        ctx.ob(rule, "google/%s/template" % cls, has, "%s.url no longer follows the route %s that parse_google_drive_url recognises" % (cls, frag), gm.site(c))
+
+        def url_cells(cls=cls, c=c, frag=frag):
+            # the record built by hand and its .url read through the interpreter (the template may live in a module constant)
+            from ..microeval import instantiate, _Interp, Raised
+            out = []
+            for typ in ("document", "spreadsheets"):
+                try:
+                    obj = instantiate(repo, gm, c, [typ, "AbC_123"], {})
+                    got = _Interp(repo, gm, {"o": obj}, 0).expr(ast.parse("o.url", mode="eval").body)
+                except Raised as e:
+                    got = "raises " + e.name
+                out.append(("%s(%r, 'AbC_123').url -> %r" % (cls, typ, got), got == "https://docs.google.com/%s" % typ + frag % "AbC_123"))
+            return out
+        ctx.ob(rule, "google/%s/template" % cls, has, "%s.url no longer follows the route %s that parse_google_drive_url recognises" % (cls, frag), gm.site(c), cells=url_cells)
     types = repo.const(gm, "DRIVE_TYPES")
     ctx.ob(rule, "google/drive-types", set(types) >= {"document", "presentation", "spreadsheets"}, "DRIVE_TYPES lost a type: %s" % types, gm.site(repo.const_node(gm, "DRIVE_TYPES")))
 
